@@ -693,3 +693,66 @@ func (st *State) Assume(op string, x, y *IntV) bool {
 func (st *State) note(format string, a ...interface{}) {
 	st.Trace = append(st.Trace, fmt.Sprintf(format, a...))
 }
+
+// widenVal: an invariant candidate covering both the previous and the incoming value of a loop phi:
+// equal constants are kept; integers are kept as a fresh symbol with the previous range when
+// the incoming range does not grow beyond it. ok=false => forget the value.
+func (st *State) widenVal(prev, cur Val) (Val, bool) {
+	switch p := prev.(type) {
+	case *BoolV:
+		c, ok := cur.(*BoolV)
+		if !ok {
+			return nil, false
+		}
+		pv, pk := st.boolOf(p)
+		cv, ck := st.boolOf(c)
+		if pk && ck && pv == cv {
+			return &BoolV{Known: true, Val: pv}, true
+		}
+	case *IntV:
+		c, ok := cur.(*IntV)
+		if !ok || c.W != p.W || c.Signed != p.Signed {
+			return nil, false
+		}
+		pl, ph := st.Range(p)
+		cl, ch := st.Range(c)
+		if cv, ok := st.ConstOf(c); ok {
+			if pv, ok := st.ConstOf(p); ok && pv == cv {
+				return mkConst(cv, p.W, p.Signed), true
+			}
+		}
+		// candidate: hull of both ranges (soundness comes from the inductive check at re-arrival)
+		l, h := min64(pl, cl), max64(ph, ch)
+		tl, th := typeRange(p.W, p.Signed)
+		if l == tl && h == th {
+			return nil, false
+		}
+		r := st.freshInt("inv", p.W, p.Signed)
+		st.refineSym(r.T.Syms[0], l, h)
+		return r, true
+	}
+	return nil, false
+}
+
+// subsumed: is value v covered by the kept invariant k?
+func (st *State) subsumed(v, k Val) bool {
+	switch kk := k.(type) {
+	case *BoolV:
+		vv, ok := v.(*BoolV)
+		if !ok {
+			return false
+		}
+		a, ak := st.boolOf(vv)
+		b, bk := st.boolOf(kk)
+		return ak && bk && a == b
+	case *IntV:
+		vv, ok := v.(*IntV)
+		if !ok {
+			return false
+		}
+		vl, vh := st.Range(vv)
+		kl, kh := st.Range(kk)
+		return vl >= kl && vh <= kh
+	}
+	return false
+}
